@@ -14,7 +14,7 @@ func Specs() []kernel.Spec {
 		{Prop: "C08", Mk: New(Mode{Prop: "C08", Faults: true, BadReqs: true, Reads: true, Submits: true, Oracle: oracleC08}), Limits: lim},
 		{Prop: "C01", Mk: New(Mode{Prop: "C01", Submits: true, LostReply: true, Oracle: oracleC01}), Limits: lim},
 		// the same submission oracle against an instance that keeps issuance chains outside the backend
-		{Prop: "C01ext", Mk: New(Mode{Prop: "C01", External: true, Submits: true, LostReply: true, Oracle: oracleC01}), Limits: lim},
+		{Prop: "C01ext", Mk: New(Mode{Prop: "C01", External: true, StoreFaults: true, Submits: true, LostReply: true, Oracle: oracleC01}), Limits: lim},
 		{Prop: "C06", Mk: New(Mode{Prop: "C06", Submits: true, Reads: true, Oracle: oracleC06, Final: finalC06}), Limits: lim},
 		{Prop: "C07", Mk: New(Mode{Prop: "C07", Submits: true, Reads: true, BadReqs: true, Boundary: true, Foreign: true, ReadWeights: []int{1, 0, 0, 8, 3, 0}, Oracle: oracleC07}), Limits: lim},
 		// the fault-classification and history oracles against an instance that keeps issuance chains outside the backend
